@@ -1,4 +1,86 @@
-//! Golden self-checks of the generators/encoders against real captures (filled in below).
+//! Golden self-checks: hand-written abstract streams must encode to real captures taken from
+//! /repo/src/tests.rs (scapy IPFIX examples, a V9 template capture) and the library must decode
+//! those captures to what the abstract stream says. A wrong encoder is the main false-alarm risk.
+
+use crate::ast::*;
+use crate::truth::{check_ipfix, check_v9, Stats};
+use crate::util::{hex, unhex};
+use netflow_parser::{NetflowPacket, NetflowParser};
+
+fn spec(t: u16, l: u16) -> IpfixSpec {
+    IpfixSpec { type_num: t, len: l, enterprise: None }
+}
+
+fn ensure(n: &mut usize, what: &str, ok: bool) {
+    if !ok {
+        eprintln!("GOLDEN CHECK FAILED: {}", what);
+        std::process::exit(3);
+    }
+    *n += 1;
+}
+
 pub fn selftest() -> usize {
-    0
+    let mut n = 0usize;
+    // --- IPFIX scapy example: template 307 with 23 fields, then one 76-byte record
+    let tmpl_hex = "000a0074583de05700000ecf00000000000200640133001700080004000c0004000500010004000100070002000b000200200002000a0004001000040011000400120004000e000400010004000200040016000400150004000f000400090001000d000100060001003c00010098000800990008";
+    let data_hex = "000a0060583de05900000ee400000000013300504601730132004701003d0000000000000000033b0000000200000003cc2a6e65000003560000052000000009b3f906eeb3fbaf3ccc2a6ebd1818000400000158b1b138ff00000158b1b3e14d";
+    let fields: Vec<IpfixSpec> = [(8, 4), (12, 4), (5, 1), (4, 1), (7, 2), (11, 2), (32, 2), (10, 4), (16, 4), (17, 4), (18, 4), (14, 4), (1, 4), (2, 4), (22, 4), (21, 4), (15, 4), (9, 1), (13, 1), (6, 1), (60, 1), (152, 8), (153, 8)].iter().map(|(t, l)| spec(*t, *l)).collect();
+    let t = IpfixMsg { export_time: 0x583de057, seq: 0x0ecf, domain: 0, sets: vec![IpfixSet::Template { records: vec![IpfixTmpl { id: 307, fields: fields.clone() }], padding: vec![] }] };
+    ensure(&mut n, "IPFIX scapy template encodes to the capture", hex(&t.wire()) == tmpl_hex);
+    let raw = unhex(data_hex);
+    let mut off = 20;
+    let rec: Vec<Cell> = fields
+        .iter()
+        .map(|f| {
+            let c = Cell::fixed(raw[off..off + f.len as usize].to_vec());
+            off += f.len as usize;
+            c
+        })
+        .collect();
+    let d = IpfixMsg { export_time: 0x583de059, seq: 0x0ee4, domain: 0, sets: vec![IpfixSet::Data { id: 307, options: false, fields: fields.clone(), records: vec![rec], padding: vec![] }] };
+    ensure(&mut n, "IPFIX scapy data encodes to the capture", hex(&d.wire()) == data_hex);
+    let mut p = NetflowParser::default();
+    let mut st = Stats::default();
+    let r1 = p.parse_bytes(&unhex(tmpl_hex));
+    let r2 = p.parse_bytes(&raw);
+    let ok = match (r1.as_slice(), r2.as_slice()) {
+        ([NetflowPacket::IPFix(a)], [NetflowPacket::IPFix(b)]) => check_ipfix(&t, a, &mut st).is_ok() && check_ipfix(&d, b, &mut st).is_ok(),
+        _ => false,
+    };
+    ensure(&mut n, "library decodes the IPFIX scapy capture as the abstract stream says", ok);
+    // --- IPFIX scapy options template: id 308, 3 fields, 1 scope, 2 bytes padding
+    let opt_hex = "000a0028583de05700000ecf00000000000300180134000300010005000200240002002500020000";
+    let o = IpfixMsg { export_time: 0x583de057, seq: 0x0ecf, domain: 0, sets: vec![IpfixSet::OptionsTemplate { records: vec![IpfixOptTmpl { id: 308, scope_count: 1, fields: vec![spec(5, 2), spec(36, 2), spec(37, 2)] }], padding: vec![0, 0] }] };
+    ensure(&mut n, "IPFIX scapy options template encodes to the capture", hex(&o.wire()) == opt_hex);
+    let r = NetflowParser::default().parse_bytes(&unhex(opt_hex));
+    let ok = match r.as_slice() {
+        [NetflowPacket::IPFix(a)] => check_ipfix(&o, a, &mut st).is_ok(),
+        _ => false,
+    };
+    ensure(&mut n, "library decodes the IPFIX options template capture as the abstract stream says", ok);
+    // --- V9 capture: four template flowsets (ids 258, 259, 261, 262)
+    let v9_hex = "0009000400a21e176658cb4600000155000000080000004c0102001100080004000c0004000f000400070002000b0002000a0002000e000200fc000400fd000400020004000100040016000400150004000400010005000101000002003d0001000000540103001300080004000c0004000f000400070002000b000200060001000a0002000e000200fc000400fd000400020004000100040016000400150004000400010005000100d1000801000002003d00010000005401050013001b0010001c0010003e001000070002000b000200060001000a0002000e000200fc000400fd00040002000400010004001600040015000400040001000500010050000601000002003d00010000005801060014001b0010001c0010003e0010001f000300070002000b000200060001000a0002000e000200fc000400fd00040002000400010004001600040015000400040001000500010050000601000002003d0001";
+    let t258 = vec![(8, 4), (12, 4), (15, 4), (7, 2), (11, 2), (10, 2), (14, 2), (252, 4), (253, 4), (2, 4), (1, 4), (22, 4), (21, 4), (4, 1), (5, 1), (256, 2), (61, 1)];
+    let t259 = vec![(8, 4), (12, 4), (15, 4), (7, 2), (11, 2), (6, 1), (10, 2), (14, 2), (252, 4), (253, 4), (2, 4), (1, 4), (22, 4), (21, 4), (4, 1), (5, 1), (209, 8), (256, 2), (61, 1)];
+    let t261 = vec![(27, 16), (28, 16), (62, 16), (7, 2), (11, 2), (6, 1), (10, 2), (14, 2), (252, 4), (253, 4), (2, 4), (1, 4), (22, 4), (21, 4), (4, 1), (5, 1), (80, 6), (256, 2), (61, 1)];
+    let t262 = vec![(27, 16), (28, 16), (62, 16), (31, 3), (7, 2), (11, 2), (6, 1), (10, 2), (14, 2), (252, 4), (253, 4), (2, 4), (1, 4), (22, 4), (21, 4), (4, 1), (5, 1), (80, 6), (256, 2), (61, 1)];
+    let mk = |id: u16, f: Vec<(u16, u16)>| V9FlowSet::Template { templates: vec![V9Tmpl { id, fields: f }], padding: vec![] };
+    let v = V9Pkt { count: 4, sys_up_time: 0x00a21e17, unix_secs: 0x6658cb46, seq: 0x155, source_id: 8, flowsets: vec![mk(258, t258), mk(259, t259), mk(261, t261), mk(262, t262)] };
+    ensure(&mut n, "V9 template capture encodes from the abstract stream", hex(&v.wire()) == v9_hex);
+    let r = NetflowParser::default().parse_bytes(&unhex(v9_hex));
+    let ok = match r.as_slice() {
+        [NetflowPacket::V9(a)] => check_v9(&v, a, &mut st).is_ok(),
+        _ => false,
+    };
+    ensure(&mut n, "library decodes the V9 template capture as the abstract stream says", ok);
+    // --- V5: the repo's test vector re-exports to itself and the offset table reads it
+    let v5: Vec<u8> = [0u8, 5, 0, 1].iter().cloned().chain((0..68).map(|i| ((i + 4) % 10) as u8)).collect();
+    let r = NetflowParser::default().parse_bytes(&v5);
+    let mut fs = crate::props::fixed::FixedStats { fields: 0, records: 0, protos: Default::default(), name_findings: vec![] };
+    let ok = match r.as_slice() {
+        [e @ NetflowPacket::V5(_)] => crate::props::fixed::check_fixed(&v5, e, &mut fs).is_ok() && crate::props::fixed::check_export(&v5, e).is_ok(),
+        _ => false,
+    };
+    ensure(&mut n, "V5 test vector agrees with the offset table and re-exports", ok);
+    n
 }
